@@ -55,8 +55,22 @@ class C13(F.Spec):
             ops.append("flashfill 00")
             ops.append("flashset 0 " + (b"SUPLA\x06" + bytes([1 + rng.getrandbits(7) for _ in range(32)]) + rb(rng, 300)).hex())
         elif kind == "v5":
+            # well-formed v5A / v5B images built field by field (offsets probed from the headers)
+            lay = rng.choice(["a", "b"])
+            kind = "v5" + lay
+            o = self.offsets()
+            im = bytearray(800)
+            im[0:6] = b"SUPLA\x05"
+            def put(f, val):
+                im[o[lay + "." + f]: o[lay + "." + f] + len(val)] = val
+            nz = lambda n: bytes([1 + rng.getrandbits(7) for _ in range(n)])
+            put("guid", nz(16)); put("auth", nz(16))
+            put("server", b"srv%d.example.org\0" % rng.randint(0, 99))
+            put("email", b"user%d@example.org\0" % rng.randint(0, 99))
+            put("ssid", b"net%d\0" % rng.randint(0, 99)); put("pwd", b"pw%d\0" % rng.randint(0, 9999))
+            put("t1", rb(rng, 8)); put("t2", rb(rng, 8))
             ops.append("flashfill 00")
-            ops.append("flashset 0 " + (b"SUPLA\x05" + bytes([1 + rng.getrandbits(7) for _ in range(16)]) + rb(rng, 600)).hex())
+            ops.append("flashset 0 " + bytes(im).hex())
         ops += ["sector", "init", "showrec", "showstate", "sector"]
         for _ in range(rng.randint(1, 5)):
             a = rng.choice(["save", "save", "savefault", "savecrash", "reboot", "factory", "state"])
@@ -231,17 +245,18 @@ class C13(F.Spec):
                             for f in ("t1", "t2"):
                                 if self.fld(rec, "v7", f, 8) != self.fld(sec, "v6", f, 8):
                                     fs.append(F.Finding("migration-lost-" + f, "v6->v7 migration did not keep the first two values of " + f))
-                        if inf["migr"] == "05" and not inf["rejected"] and sec is not None:
-                            for f in ("guid", "server", "ssid", "pwd"):
-                                if self.fld(rec, "v7", f) != self.fld(sec, "b", f):
-                                    fs.append(F.Finding("migration-lost-" + f, "v5->v7 migration did not keep " + f))
-                            lay = "a" if self.fld(rec, "v7", "auth") == self.fld(sec, "a", "auth") else "b"
-                            if self.fld(rec, "v7", "auth") != self.fld(sec, lay, "auth") or \
-                               self.fld(rec, "v7", "email") != self.fld(sec, lay, "email"):
-                                fs.append(F.Finding("migration-lost-auth", "v5->v7 migration kept neither layout's AuthKey/e-mail"))
-                            for f in ("t1", "t2"):
-                                if self.fld(rec, "v7", f, 8) != self.fld(sec, lay, f, 8):
-                                    fs.append(F.Finding("migration-lost-" + f, "v5->v7 migration did not keep the first two values of " + f))
+                        if inf["migr"] == "05" and sec is not None and case.meta.get("kind") in ("v5a", "v5b"):
+                            lay = case.meta["kind"][2]
+                            if inf["rejected"]:
+                                fs.append(F.Finding("migration-rejected", "a well-formed v5%s record was not migrated but replaced "
+                                                    "by defaults with a new identity" % lay.upper()))
+                            else:
+                                for f in ("guid", "auth", "server", "email", "ssid", "pwd"):
+                                    if self.fld(rec, "v7", f) != self.fld(sec, lay, f):
+                                        fs.append(F.Finding("migration-lost-" + f, "v5%s->v7 migration did not keep %s" % (lay.upper(), f)))
+                                for f in ("t1", "t2"):
+                                    if self.fld(rec, "v7", f, 8) != self.fld(sec, lay, f, 8):
+                                        fs.append(F.Finding("migration-lost-" + f, "v5%s->v7 migration did not keep the first two values of %s" % (lay.upper(), f)))
                         after = ("init-state", inf) if False else after
                     elif after and after[0] == "factory":
                         b = after[1]["before"]
